@@ -33,9 +33,9 @@ theorem Hyp3.of_old (H : Cluster.Hyp3 cfg c0 h) : Hyp3 cfg c0 h :=
     initc := H.initc, norir := H.norir, anch := H.anch, snapt0 := H.snapt0 }
 
 /-- the logs of two commit events agree up to the smaller commit index (ghost logs) -/
-theorem ev_logs_agree (H : Hyp3 cfg c0 h) {E1 E2 : Ev} (h1 : E1.ok h) (h2 : E2.ok h)
+theorem ev_logs_agree (H : Hyp3a cfg c0 h) {E1 E2 : Ev} (h1 : E1.ok h) (h2 : E2.ok h)
     (hle : E1.c ≤ E2.c) : EqUpTo (EvF h c0 E1) (EvF h c0 E2) E1.c := by
-  have H2 := H.toHyp2
+  have H2 := H.toHyp2w
   obtain ⟨l1, hh1, _⟩ := Ev.leaderLog H2 h1
   obtain ⟨l2, _, _⟩ := Ev.leaderLog H2 h2
   have S := sall H (E1.nE + E2.nE + 2)
@@ -44,14 +44,14 @@ theorem ev_logs_agree (H : Hyp3 cfg c0 h) {E1 E2 : Ev} (h1 : E1.ok h) (h2 : E2.o
 
 /-- **State-Machine Safety for the ghost logs**: the uncompacted logs of any two nodes, in any two
 states of the history, hold the same entry at every index both commit indexes cover -/
-theorem sms_ghost (H : Hyp3 cfg c0 h)
+theorem sms_ghost (H : Hyp3a cfg c0 h)
     {m1 : Nat} {s1 : Sys} (hm1 : h[m1]? = some s1) {v1 : Nat} {st1 : NState}
     (hv1 : s1.node v1 = some st1)
     {m2 : Nat} {s2 : Sys} (hm2 : h[m2]? = some s2) {v2 : Nat} {st2 : NState}
     (hv2 : s2.node v2 = some st2)
     {k : Nat} (hk1 : k ≤ st1.raft.raftLog.committed) (hk2 : k ≤ st2.raft.raftLog.committed) :
     (FL h c0 st1).entryAt k = (FL h c0 st2).entryAt k := by
-  have H2 := H.toHyp2
+  have H2 := H.toHyp2w
   have I1 := node_full H2 m1 s1 hm1 v1 st1 hv1
   have I2 := node_full H2 m2 s2 hm2 v2 st2 hv2
   by_cases hk0 : k ≤ c0
